@@ -847,7 +847,9 @@ fn gen_stmt(g: &mut Gen, db: &Database, pos: usize) -> String {
                 }
                 rows.push(format!("({})", vals.join(", ")));
             }
-            let name = if g.r.chance(1, 10) { t.to_lowercase() } else { as_ident(&t) };
+            // the lower-case spelling denotes the same table only for an all-upper-case name
+            let plain_upper = t.chars().all(|c| c.is_ascii_uppercase() || c.is_ascii_digit());
+            let name = if plain_upper && g.r.chance(1, 10) { t.to_lowercase() } else { as_ident(&t) };
             format!("INSERT INTO {} VALUES {}", name, rows.join(", "))
         }
         // CREATE INDEX
